@@ -79,7 +79,7 @@ def parse_race_reports(text):
 
 def stress(chk, search=False):
     try:
-        binary = common.build_go("./cmd/racestress", tags="verif", race=True)
+        binary = common.build_go("./cmd/racestress", tags="production", race=True)  # the production build: no verif hooks
     except common.BuildError as e:
         chk.infra_errors.append("race stress harness does not build against /repo: " + str(e)[-1500:])
         return
